@@ -52,8 +52,8 @@ CLAIMED = {
         "level": P + "Every ColumnarBuffer method that changes the buffered events also updates timestamps and invalidates the column cache on all paths; for each aggregate the overridden row / shared / columnar paths agree on NaN filtering and field access, and trait defaults delegate. Numeric results are not decided.",
     },
     "C15": {
-        "technique": "binary-search precondition (R-SORTED): writers of the searched vector type on MIR",
-        "level": "One clause only: the per-key vector searched with partition_point in the join buffer must be kept sorted by its writers. The rest of the join semantics is not decided.",
+        "technique": "binary-search precondition (R-SORTED) on MIR; arrival-order writers, last-match selection, window/expiry predicate agreement and key/time provenance on type-checked HIR of JoinBuffer",
+        "level": P + "The per-key vector searched with partition_point must be kept sorted by its writers; per-key buffers are appended at the back and evicted from the front only; correlation picks the last in-window element per source, on the in-window side of `arrival - window`; cleanup never expires what correlation accepts; the arriving event is stored, expired and correlated under one to_partition_key value and its own timestamp, stored before it is correlated. That every source is consulted and the field merge are not decided.",
     },
     "C16": {
         "technique": "entry-point / kernel reachability agreement over the call graph, sibling constants on HIR, guard dominance of output requeueing on MIR",
